@@ -42,6 +42,7 @@ class Recorder:
         self.objs = {}            # id(obj) -> (k, obj)
         self.alias = {}           # address -> alias int
         self.open = []            # stack of open touches (dicts)
+        self.open_lv = []         # request nesting level at which each of them was opened
         self.handlers = []        # stack of active handler records
         self.lazies = []          # synthesized touches awaiting their answer
         self.reqs = []            # requests being dispatched (innermost last)
@@ -165,20 +166,29 @@ class Recorder:
         self.flush()
         self.events.append("t:%s %s n=%s a=%s" % (kind, self.pv(subj), self.val(name), self.pvs(args)))
         self.open.append(kind)
+        self.open_lv.append(len(self.reqs))
 
     def touch_text(self, kind, subj_text, name="", args_text="[ ]"):
         self.flush()
         self.events.append("t:%s %s n=%s a=%s" % (kind, subj_text, self.val(name), args_text))
         self.open.append(kind)
+        self.open_lv.append(len(self.reqs))
+
+    def open_here(self):
+        """is a touch of the request being dispatched right now still open (= are we inside an environment move)?
+        An open touch of an OUTER request does not count: the peer's nested request is served inside it."""
+        return bool(self.open_lv) and self.open_lv[-1] >= len(self.reqs)
 
     def done(self, res):
         self.open.pop()
+        self.open_lv.pop()
         t = "R " + self.pv(res)
         self.tape.append("D " + t)
         self.events.append("a:" + t)
 
     def failed(self, ex):
         self.open.pop()
+        self.open_lv.pop()
         self.keep.append(ex)
         t = "X " + self.exc(ex)
         self.tape.append("D " + t)
@@ -342,7 +352,7 @@ def install():
 
     def p_getattr(obj, name, *default):
         r = active()
-        if r is not None and not _access_subject(r)[0] and not _in_check(r) and name == "_rpyc_getattr" \
+        if r is not None and not r.open_here() and not _access_subject(r)[0] and not _in_check(r) and name == "_rpyc_getattr" \
                 and default == (None,) and _top_handler(r) == "_handle_cmp":
             # `_handle_cmp` asks whether the object's own type defines the hook (then that hook decides)
             h = [x for x in r.handlers if x["req"] == len(r.reqs) and x["name"] == "_handle_cmp"][-1]
@@ -433,11 +443,28 @@ def install():
         r.done(res)
         return res
 
+    def _handler_subject(r, inst):
+        """is `inst` the object `_handle_instancecheck(obj, ...)` / `_handle_inspect(id_pack)` is about?"""
+        hs = [h for h in r.handlers if h["req"] == len(r.reqs)]
+        if not hs or not hs[-1]["args"]:
+            return False
+        h = hs[-1]
+        if h["name"] == "_handle_instancecheck":
+            return inst is h["args"][0]
+        if h["name"] == "_handle_inspect":
+            try:
+                return inst is r.conn._local_objects._dict[h["args"][0]][0]
+            except Exception:  # noqa
+                return False
+        return False
+
     def p_isinstance(inst, cls):
         r = active()
-        if r is not None and cls is netref.BaseNetref and _top_handler(r) in ("_handle_instancecheck", "_handle_inspect") \
-                and not _in_check(r) and r.pv(inst).startswith("o"):
-            # "is this table object itself a proxy?" (however it is spelled: see p_hasattr for `____conn__`)
+        if r is not None and cls is netref.BaseNetref and not r.open_here() and not _in_check(r) and _handler_subject(r, inst) \
+                and r.pv(inst).startswith("o"):
+            # "is this table object itself a proxy?" (however it is spelled: see p_hasattr for `____conn__`).  Only the
+            # handler's own subject counts, and only outside any open touch: `_box` asks the same question of everything
+            # it boxes - also when a proxy of an EARLIER session is finalised (cyclic GC) in the middle of this one
             r.touch("probeconn", inst)
             try:
                 res = real_isinstance(inst, cls)
